@@ -104,18 +104,16 @@ def ground_truth(args, truth_file):
             filenames, (list, tuple)
         ), "Expected Union[list, tuple] got {!r}".format(type(filenames).__name__)
 
-        effect.update(
-            map(
-                lambda filename: _conform_filename(
-                    filename=filename,
-                    search=search,
-                    emit_func=emit_func,
-                    replacement_node_ir=gold_ir,
-                    type_wanted=type_wanted,
-                ),
-                filenames,
+        for filename in filenames:
+            filename, modified = _conform_filename(
+                filename=filename,
+                search=search,
+                emit_func=emit_func,
+                replacement_node_ir=gold_ir,
+                type_wanted=type_wanted,
             )
-        )
+            # a file named for more than one kind was changed if any of its steps changed it
+            effect[filename] = effect.get(filename, False) or modified
 
     return effect
 
